@@ -264,8 +264,11 @@ def build_reference(root: str) -> dict:
             for q, node in functions(tree):
                 names = locals_in_order(node)
                 sym = sorted({ast.unparse(c) for c in _sym_compares(node)})
+                pos = node.args.args
+                dfl = {a.arg: ast.unparse(d) for a, d in zip(pos[len(pos) - len(node.args.defaults):], node.args.defaults) if isinstance(d, ast.Constant)}
+                dfl.update({a.arg: ast.unparse(d) for a, d in zip(node.args.kwonlyargs, node.args.kw_defaults) if isinstance(d, ast.Constant)})
                 out[f"{rel}::{q}"] = {"locals": names, "digest": digest(node), "sym": sym, "src": ast.unparse(node),
-                                      "params": [a.arg for a in node.args.args]}
+                                      "params": [a.arg for a in node.args.args], "defaults": dfl}
     return out
 
 
@@ -279,6 +282,12 @@ def signatures() -> Dict[str, List[str]]:
             if "." not in q:
                 seen.setdefault(q, []).append(r.get("params", []))
         _sigs = {k: v[0] for k, v in seen.items() if len(v) == 1}
+        dseen: Dict[str, List[dict]] = {}
+        for k, r in reference().items():
+            q = k.split("::", 1)[1]
+            if "." not in q:
+                dseen.setdefault(q, []).append(r.get("defaults", {}))
+        _sigs["__defaults__"] = {k: v[0] for k, v in dseen.items() if len(v) == 1}
     return _sigs
 
 
@@ -455,6 +464,8 @@ def restore_refactored(tree: ast.Module, relpath: str) -> List[str]:
             elif cls is not None and hq.rsplit(".", 1)[0] == cls:
                 hn._is_method = True
                 helpers[hq.rsplit(".", 1)[1]] = hn
+        nested_new = {s_.name: s_ for s_ in node.body if isinstance(s_, _FUNCS) and f"{relpath}::{q}.{s_.name}" not in ref}
+        helpers.update(nested_new)  # a local function introduced by the edit: its calls are replaced by its body
         local_defs = _module_level_defs(tree)
         todo = [(n, 0) for n in _called_names(node)] + [(n, 1) for h in list(helpers.values()) for n in _called_names(h)]
         while todo:
